@@ -1336,11 +1336,23 @@ mod verif_deflate_core {
     //   match symbolic. Contract (the one model_find_match hands to compress_normal): the result is the incoming
     //   pair or a strictly longer match that is REAL data at a distance in 1..=max_dist.
     // ------------------------------------------------------------------
+    /// Same all-zero initial window / hash tables as HashBuffers::default(), but allocated as Box::new([0; N]):
+    /// CBMC constant-folds reads at concrete positions from such an object, and does NOT from the
+    /// vec![0; N].into_boxed_slice().try_into() objects of the real constructor (measured: a loop bounded by such a
+    /// byte unwinds to the bound). The state is identical; only the allocation route differs.
+    macro_rules! concrete_window {
+        ($dict:expr) => {{
+            $dict.b.dict = Box::new([0u8; LZ_DICT_FULL_SIZE]);
+            $dict.b.next = Box::new([0u16; LZ_DICT_SIZE]);
+            $dict.b.hash = Box::new([0u16; LZ_DICT_SIZE]);
+        }};
+    }
     #[kani::proof]
     #[kani::unwind(34)]
-    #[kani::stub(DictOxide::read_unaligned_u64, model_read_u64_exact)]
     fn k_find_match_chain() {
+        const FM_CASES: usize = 8;
         let mut d = DictOxide::new(0);
+        concrete_window!(d);
         const L: usize = 65536 + 5000;
         let cur = *b"abcdefghij";
         let c10 = *b"abcdeXYZWV";
@@ -1356,7 +1368,7 @@ mod verif_deflate_core {
         let lens = [0u32, 3, 5, 6, 0, 3, 0, 3];
         let mmls = [258u32, 258, 258, 258, 6, 6, 4, 4];
         let mut i = 0;
-        while i < 8 {
+        while i < FM_CASES {
             let len_in = lens[i];
             let probes: u32 = kani::any();
             kani::assume(probes >= 1 && probes <= 4);
